@@ -15,23 +15,40 @@ import contextlib, io, itertools, json, types, uuid as _uuid
 from common import import_qib, run_correspondence, q as ratq
 
 PROP = "C18"
-LEAN_FILES = ["QibProofs/Properties/C18.lean"]
-GEN = ("tables", "wmiconfig")
+LEAN_FILES = ["QibProofs/Properties/C18.lean", "QibProofs/Properties/C18Qasm.lean"]
+GEN = ("tables", "wmiconfig", "qasm")
 DRIVER = "drv_backend"
 LEVEL_TEXT = ("Lean 4 theorems (accepted <=> valid for every configuration and every instruction list; refused before any "
               "request; Qobj identities; hex->binary key conversion) over a hand-written model of _validate/as_qasm/get_counts, "
               "instantiated with the two shipped processor configurations regenerated from the source; the model is tied to the "
-              "code by submitting real circuits (valid, and invalid in every single way at every position) through a scripted transport.")
+              "code by submitting real circuits (valid, and invalid in every single way at every position) through a scripted transport. "
+              "Object -> Qobj instruction (C18Qasm.lean): a table of every class's as_qasm (name constant, which attributes become params / "
+              "qubits / memory / duration and in which order, the whole decision tree of ControlledGate, the classes that raise) is "
+              "regenerated from gates.py / control_instructions.py / const.py on every run; theorems for ALL object states over any table "
+              "with canonical rows and pairwise distinct names (discharged for the current source by evaluation): as_qasm followed by decode "
+              "is the identity up to the control state (round trip), decode followed by as_qasm is the identity, injectivity, same name iff same "
+              "kind of object, standard OpenQASM names, controls-then-targets / own parameters unchanged / memory = clbits, exactly which objects "
+              "raise and what, link to the validation model (basis gates of the shipped processors have a class with matching arity); tied by "
+              "building real objects of every class in every binding / control pattern and comparing the whole dictionary exactly (driver drv_qasm).")
 ASSUMPTIONS = ["all qubits of one circuit live in one field (particle identity = index)",
                "shots, indices and memory slots are Python ints; count keys are '0x'/'0X'-prefixed or bare hexadecimal digit strings "
                "(signs, underscores and blanks, which int(key,16) also accepts, are outside the model)",
                "falsy-but-set optional options (0, False, '') are dropped by WMIOptions.optional(); only truthy options are asserted",
                "qib.util.networking.requests and qib.backend.wmi.wmi_experiment.uuid are replaced by scripted fakes",
-               "a processor configuration with n_qubits = 0 accepts nothing (not even the empty circuit); theorems carry 0 < n_qubits"]
+               "a processor configuration with n_qubits = 0 accepts nothing (not even the empty circuit); theorems carry 0 < n_qubits",
+               "object states carry qubit INDICES (one field); parameters are finite floats / ints transported exactly; the Python type of a "
+               "parameter (int, float, numpy scalar) is not modelled; control qubits are either unset or as many as ncontrols (set_control)"]
 RULE = ("per configuration: every candidate instruction alone; seeded valid base circuits of 1..8 instructions, each re-run with one "
         "offending instruction of every category substituted/inserted at every position; exhaustive short circuits over a compact "
-        "alphabet; shots at and beyond the limit; a case is non-trivial if the circuit is non-empty; distinct = distinct case JSON")
-TRUSTED = ["harness descriptor -> qib object construction (props/c18.py build_gate) and the descriptor -> expected-Qobj table"]
+        "alphabet; shots at and beyond the limit; a case is non-trivial if the circuit is non-empty; distinct = distinct case JSON; "
+        "stage qasm: every gate class (serialisable or not) bound / unbound / via constructor or on(), boundary angles; ControlledGate with "
+        "0..3 controls x every target class x every control pattern x controls set or not, nested, constructor / set_control rejections; "
+        "every constructor / on() form of the three control instructions; every descriptor kind of this file against the model; random "
+        "circuits of such objects through WMIExperiment with the shipped and a wide configuration")
+TRUSTED = ["harness recipe / descriptor -> qib object construction (props/c18.py build_gate, props/c18_qasm.py build)",
+           "specification table 'OpenQASM 2 / Qiskit name of each gate class' (Lean: Qib.Qasm.stdName, mirrored in props/c18_qasm.py STD_NAME); "
+           "the descriptor -> expected-Qobj table of props/c18.py (expected_instr) is no longer trusted: stage qasm.table checks it against the "
+           "Lean model and the real objects on every run"]
 
 FIXED_UUID = _uuid.UUID("12345678-1234-5678-1234-567812345678")
 ONEQ = ["id", "x", "y", "z", "h", "sx", "s", "t"]
@@ -897,3 +914,6 @@ def run(rep, tier, rng, drv):
             yield c
     run_correspondence(rep, drv, cases(), impl, model_req, compare, oracle, "wmi.submit/wmi.validate/wmi.counts/wmi.ctrlname",
                        nontrivial=lambda c, o: bool(c.get("instrs")) or c["op"] in ("wmi.counts", "wmi.ctrlname"))
+    # object -> Qobj instruction (`as_qasm()` of every class), own driver
+    from props import c18_qasm
+    c18_qasm.run_stage(rep, tier, rng)
